@@ -2,8 +2,8 @@ package rig
 
 import (
 	"bufio"
-	"errors"
 	"crypto/tls"
+	"errors"
 	"io"
 	"net"
 	"sync"
@@ -59,20 +59,20 @@ func WriteSegments(c net.Conn, b []byte, sizes []int) error {
 
 // Peer is a scripted TCP (optionally TLS) server: origin, upstream proxy or redirect target.
 type Peer struct {
-	L        net.Listener
-	Addr     string
-	Name     string
-	mu       sync.Mutex
-	log      []*Exchange
-	accepts  atomic.Int64
-	bytesIn  atomic.Int64
-	conns    []net.Conn
-	respond  Responder
-	rawConn  func(pc *PeerConn) // if set, the peer hands the connection to this instead of parsing HTTP
-	closed   atomic.Bool
-	wg       sync.WaitGroup
-	tlsConf  *tls.Config
-	connSeq  atomic.Int64
+	L       net.Listener
+	Addr    string
+	Name    string
+	mu      sync.Mutex
+	log     []*Exchange
+	accepts atomic.Int64
+	bytesIn atomic.Int64
+	conns   []net.Conn
+	respond Responder
+	rawConn func(pc *PeerConn) // if set, the peer hands the connection to this instead of parsing HTTP
+	closed  atomic.Bool
+	wg      sync.WaitGroup
+	tlsConf *tls.Config
+	connSeq atomic.Int64
 }
 
 // countingConn counts bytes read from the client side.
